@@ -87,7 +87,7 @@ class Report:
         n_dis = len([o for o in self.obligations if o["kind"].startswith("obligation") and o["verdict"] == "unsat"])
         nontrivial = len({o["name"] for o in self.obligations if o["kind"] == "obligation"})
         cov = {
-            "evaluations": max(len(self.obligations), 1),
+            "evaluations": max(len(self.obligations) + int(self.extra.get("solver_queries", 0)), 1),
             "distinct_nontrivial": nontrivial,
             "rule": "one evaluation = one SMT query (obligation 'hyps and not goal' expected unsat, or reachability twin expected sat); "
                     "distinct_nontrivial counts distinct obligation names that needed an actual solver call (syntactically true goals excluded)",
